@@ -67,7 +67,11 @@ ASSUMPTIONS = [
     "the count clause is checked, not predicted: there is no model of pandas value_counts; the proved checker "
     "valid_count_order is applied to the implementation's answer on every case (theorems are about the checker)",
     "columns of pandas `category` dtype (unobserved categories listed with count 0) and category columns mixing "
-    "int and str values are outside the quantifier and never drawn; only float64 numerical columns are drawn",
+    "int and str values are outside the quantifier and never drawn",
+    "numerical columns held as float32 / Float32 / float16 (numpy computes in that type): values are exactly "
+    "representable, statistics are compared within 4 eps of the largest magnitude; in Coq only which statistics are NaN",
+    "std is accepted within relative 1e-12 on the variance or within 8 ulps of the largest magnitude (conditioning of "
+    "a tiny spread around a large value); data are drawn at scales 2^-40 .. 2^40 and as 1 + k 2^-30",
     "timestamp strings with time_format=None are ISO ('%Y-%m-%d %H:%M:%S'); sub-second and tz-aware timestamps are not drawn",
 ]
 
@@ -94,10 +98,27 @@ def gen_numbers(rng, k, kind):
         return [rng.pick(pool) for _ in range(k)]
     if kind == "coarse":
         return [dy(rng, 1, -8, 8) for _ in range(k)]
+    if kind == "const0":
+        c = dy(rng, 1, -8, 8)
+        return [c] * k
+    if kind == "int8":
+        return [float(rng.randint(-8, 8)) for _ in range(k)]
     return [dy(rng) for _ in range(k)]
 
 
 NUM_KINDS = [(6, "dyadic"), (2, "int"), (1, "const"), (2, "skew"), (2, "ties"), (1, "coarse")]
+# scale of the data: x * 2^e (exact in binary floating point, so mean and quantiles stay exactly comparable), or a tiny
+# spread around 1 (1 + k * 2^-30: population std around 1e-9 .. 1e-8)
+SCALES = [(10, 0), (2, -40), (1, -30), (2, 40), (1, 30), (2, "offset")]
+EPS = {"float32": 2.0 ** -23, "Float32": 2.0 ** -23, "float16": 2.0 ** -10}
+
+
+def rescale(rng, vals, scale):
+    if scale == 0:
+        return vals
+    if scale == "offset":
+        return [1.0 + float(int(v * 256) % 61) * 2.0 ** -30 for v in vals]
+    return [v * 2.0 ** scale for v in vals]
 
 
 def base_col(name, st):
@@ -108,9 +129,17 @@ def gen_num_col(rng, name, n, for_target=False, shared=None):
     col = base_col(name, "numerical")
     col["dtype"] = "float"
     shape = "usable" if for_target else rng.wpick([(12, "usable"), (2, "single"), (1, "allmissing"), (1, "onlyinf")])
-    vals = gen_numbers(rng, n, rng.wpick(NUM_KINDS))
+    backing = rng.wpick([(12, "float64"), (2, "float32"), (2, "float16"), (2, "Float64"), (2, "Float32")])
+    if backing in ("float32", "float16", "Float32"):
+        vals = gen_numbers(rng, n, rng.pick(["coarse", "coarse", "const0", "int8"]))   # exactly representable in float16
+        col["scale"] = 0
+    else:
+        col["scale"] = rng.wpick(SCALES)
+        vals = rescale(rng, gen_numbers(rng, n, rng.wpick(NUM_KINDS)), col["scale"])
     mp = rng.pick([0.0, 0.0, 0.2, 0.5])
     ip = 0.0 if for_target else rng.pick([0.0, 0.0, 0.15, 0.4])
+    if backing != "float64" and not for_target:
+        ip = rng.pick([0.15, 0.3, 0.5])                 # +/-inf in every float backing pandas offers
     cells = []
     for v in vals:
         if rng.chance(mp) and not for_target:
@@ -128,7 +157,9 @@ def gen_num_col(rng, name, n, for_target=False, shared=None):
         cells = [rng.pick([None, "inf", "-inf", "inf"]) for _ in range(n)]
     col["cells"] = cells
     col["gen"] = shape
-    if all(isinstance(c, float) and c == int(c) for c in cells) and rng.chance(0.6):
+    if backing != "float64":
+        col["np_dtype"] = backing
+    elif all(isinstance(c, float) and c == int(c) and abs(c) < 2 ** 50 for c in cells) and rng.chance(0.6):
         col["np_dtype"] = "int64"               # an integer-valued column without missing cells held as int64
     return col
 
@@ -137,6 +168,7 @@ def gen_seq_col(rng, name, n, shared=None):
     col = base_col(name, "sequence_numerical")
     shape = rng.wpick([(10, "usable"), (2, "allempty"), (2, "allnan"), (1, "allmissing"), (1, "single")])
     vals_kind = rng.wpick(NUM_KINDS)
+    col["scale"] = rng.wpick(SCALES)
     mp = rng.pick([0.0, 0.2, 0.5])
     cells = []
     for _ in range(n):
@@ -149,12 +181,13 @@ def gen_seq_col(rng, name, n, shared=None):
         elif shape == "allnan":
             cells.append([rng.pick([None, None, "inf", "-inf"]) for _ in range(k)])
         else:
-            xs = gen_numbers(rng, k, vals_kind)
+            xs = rescale(rng, gen_numbers(rng, k, vals_kind), col["scale"])
             cells.append([None if rng.chance(0.12) else (rng.pick(["inf", "-inf"]) if rng.chance(0.08) else x)
                           for x in xs])
     if shape == "single":
         cells = [rng.pick([None, [], [None], ["inf"]]) for _ in range(n)]
-        cells[rng.randrange(n)] = [None, dy(rng)] if rng.chance(0.5) else [dy(rng)]
+        one = rescale(rng, [dy(rng)], col["scale"])[0]
+        cells[rng.randrange(n)] = [None, one] if rng.chance(0.5) else [one]
     col["cells"] = cells
     col["nan_kind"] = rng.pick(["none", "nan"])
     col["gen"] = shape
@@ -427,8 +460,9 @@ def build_ds(desc, df, ctor):
     ie = form(ie, ctor.get("cfg_form"))
     tt = form(tt, ctor.get("cfg_form"))
     for n in col_to_stype:
-        if by[n].get("np_dtype") and df[n].dtype == float and not df[n].isna().any():
-            df[n] = df[n].astype(by[n]["np_dtype"])
+        dt = by[n].get("np_dtype")
+        if dt and df[n].dtype == float and (dt != "int64" or not df[n].isna().any()):
+            df[n] = df[n].astype(dt)
     kw = {}
     if ctor.get("split") is not None:
         df[SPLIT] = list(ctor["split"])
@@ -661,7 +695,7 @@ def ref_num_stats(col):
     mean = sum(xs) / n
     var = sum((x - mean) ** 2 for x in xs) / n
     s = sorted(xs)
-    return {"mean": mean, "var": var, "quant": [ref_quantile(s, k) for k in range(5)]}
+    return {"mean": mean, "var": var, "quant": [ref_quantile(s, k) for k in range(5)], "maxabs": max(abs(x) for x in xs)}
 
 
 def cat_values(col):
@@ -687,14 +721,38 @@ def comps(t):
     return [y, m - 1, d - 1, dt.date(y, m, d).weekday(), hh, mm, ss]
 
 
-def check_num(colname, where, st, ref):
-    """st: observed {MEAN, STD, QUANTILES}.  Returns failure (key suffix, text, expected, observed) or None."""
+def std_close(s, var, maxabs):
+    """observed std s vs exact population variance: relative 1e-12 on the variance, or within the conditioning of the
+    computation (8 ulps of the largest magnitude: sqrt of a difference of nearly equal numbers cannot do better)"""
+    s = Fraction(s)
+    if abs(s * s - var) <= TOL * var:
+        return True
+    b = Fraction(8, 2 ** 52) * maxabs
+    lo, hi = s - b, s + b
+    return (lo <= 0 or lo * lo <= var) and var <= hi * hi
+
+
+def check_num(colname, where, st, ref, eps=0.0):
+    """st: observed {MEAN, STD, QUANTILES}.  Returns failure (key suffix, text, expected, observed) or None.
+    eps > 0: the column is held in a reduced-precision float type and numpy computes in that type: compared within
+    4 eps of the largest magnitude instead of exactly."""
     if set(st) != {"MEAN", "STD", "QUANTILES"}:
         return ("keys", f"statistics present: {sorted(st)}", ["MEAN", "STD", "QUANTILES"], sorted(st))
     if ref is None:
         if st["MEAN"] is not None or st["STD"] is not None or st["QUANTILES"] != [None] * 5:
             return ("default", "column without usable value must have NaN mean/std/quantiles",
                     {"MEAN": None, "STD": None, "QUANTILES": [None] * 5}, st)
+        return None
+    if eps:
+        tol = 4 * eps * max(float(ref["maxabs"]), 1e-300)
+        sd = math.sqrt(ref["var"])
+        exp = {"MEAN": float(ref["mean"]), "STD": sd, "QUANTILES": [float(q) for q in ref["quant"]]}
+        flat_o = [st["MEAN"], st["STD"]] + (st["QUANTILES"] if isinstance(st["QUANTILES"], list) else [None] * 5)
+        flat_e = [exp["MEAN"], exp["STD"]] + exp["QUANTILES"]
+        names = ["mean", "std"] + ["quantiles"] * 5
+        for o, e, nm in zip(flat_o, flat_e, names):
+            if not isinstance(o, float) or not abs(o - e) <= tol:
+                return (nm, f"{nm.upper()} {o!r} differs from {e!r} (reduced-precision column, tolerance {tol:g})", exp, st)
         return None
     em = float(ref["mean"])
     if not isinstance(st["MEAN"], float) or st["MEAN"] != em:
@@ -705,8 +763,7 @@ def check_num(colname, where, st, ref):
     s = st["STD"]
     if not isinstance(s, float) or s < 0:
         return ("std", f"STD {s!r} is not a non-negative number", math.sqrt(ref["var"]), s)
-    s2 = Fraction(s) ** 2
-    if abs(s2 - ref["var"]) > TOL * ref["var"]:
+    if not std_close(s, ref["var"], ref["maxabs"]):
         return ("std", f"STD {s!r} is not the population standard deviation {math.sqrt(ref['var'])!r}",
                 math.sqrt(ref["var"]), s)
     return None
@@ -761,7 +818,7 @@ def check_col_stats(case, col, st, is_target_resorted):
     if isinstance(st, dict) and "exc" in st:
         return ("raises", f"computing the statistics raised {st['exc']}: {st.get('msg')}", None, st)
     if s in ("numerical", "sequence_numerical"):
-        return check_num(col["name"], "", st, ref_num_stats(col))
+        return check_num(col["name"], "", st, ref_num_stats(col), EPS.get(col.get("np_dtype"), 0.0))
     if s == "categorical":
         return check_count(st, "COUNT", cat_values(col), is_target_resorted)
     if s == "multicategorical":
@@ -958,7 +1015,18 @@ def stats(cases, obss):
         for k in ("direct_form", "device", "path"):
             d.setdefault("call_" + k, {})
             d["call_" + k][str(ct.get(k))] = d["call_" + k].get(str(ct.get(k)), 0) + 1
-        d["int64_numerical_columns"] = d.get("int64_numerical_columns", 0) + sum(1 for x in c["cols"] if x.get("np_dtype"))
+        d["int64_numerical_columns"] = d.get("int64_numerical_columns", 0) + \
+            sum(1 for x in c["cols"] if x.get("np_dtype") == "int64")
+        d.setdefault("float_backing_with_inf", {})
+        d.setdefault("scales", {})
+        for x in c["cols"]:
+            if x["stype"] == "numerical":
+                bk = x.get("np_dtype") or "float64"
+                if any(isinstance(v, str) for v in x["cells"]) and any(isinstance(v, float) for v in x["cells"]):
+                    d["float_backing_with_inf"][bk] = d["float_backing_with_inf"].get(bk, 0) + 1
+            if x["stype"] in ("numerical", "sequence_numerical") and "scale" in x:
+                k = x["stype"] + ":" + str(x["scale"])
+                d["scales"][k] = d["scales"].get(k, 0) + 1
         for k in ("sep_form", "fmt_form", "cfg_form"):
             kk = k + ":" + str(ct.get(k, "dict"))
             d["ctor_forms"][kk] = d["ctor_forms"].get(kk, 0) + 1
@@ -1037,6 +1105,13 @@ def sanity(cases, obss):
         for k in ks:
             if (d.get(grp) or {}).get(k, 0) == 0:
                 probs.append(f"{grp} = {k} never drawn")
+    for bk in ("float64", "float32", "float16", "Float64", "Float32"):
+        if (d.get("float_backing_with_inf") or {}).get(bk, 0) == 0:
+            probs.append(f"no {bk} numerical column holding +/-inf next to finite values")
+    for st in ("numerical", "sequence_numerical"):
+        for sc in ("0", "-40", "-30", "40", "30", "offset"):
+            if (d.get("scales") or {}).get(st + ":" + sc, 0) == 0:
+                probs.append(f"no {st} column at scale {sc}")
     if d.get("int64_numerical_columns", 0) == 0:
         probs.append("no int64 numerical column")
     if d["columns"].get("text_tokenized", 0) == 0:
@@ -1128,6 +1203,11 @@ def coq_col(case, obs, col, extra):
         if set(st) != {"MEAN", "STD", "QUANTILES"} or not isinstance(st["QUANTILES"], list):
             return None
         o = f"ONum {cdbl(st['MEAN'])} {cdbl(st['STD'])} {C.clist(st['QUANTILES'], cdbl)}"
+        if col.get("np_dtype") in EPS:
+            # reduced-precision backing: only which statistics are NaN is compared in Coq
+            extra.append(f"col_shape_ok {C.clist(col['cells'], cnum)} {cdbl(st['MEAN'])} {cdbl(st['STD'])} "
+                         f"{C.clist(st['QUANTILES'], cdbl)}")
+            return "skip", None
         return c, o
     if s in ("categorical", "multicategorical"):
         key = "COUNT" if s == "categorical" else "MULTI_COUNT"
@@ -1244,6 +1324,8 @@ def coq_term(case, obs):
                 return "false"
             continue
         r = coq_col(case, obs, col, terms)
+        if r is not None and r[0] == "skip":
+            continue
         if r is None:
             return "false"
         terms.append(f"col_stats_ok ({r[0]}) ({r[1]})")
